@@ -91,6 +91,7 @@ def run(ctx):
                 'scale) x rays (inside, outside, behind the origin, parallel, grazing), batch sizes 1-5, both APIs; non-trivial = '
                 'non-parallel ray; distinct by (class, ray kind, coordinates)')
     exact_parallel_cases(ctx)
+    storage_cases(ctx)
     ctx.rule += ('; circles: tilt classes (none, one/two/three axes, multiples of 90 deg, exactly axis-aligned) x radii x rays aimed at '
                  'rho = 0, inside, rim +-2 %, outside, far, behind the origin, exactly parallel, ray shapes [2x3], [1x2x3], [mx2x3], '
                  'float32/float64; planar_mesh.mirror: 2..4 nodes per side, flat / offset / rough heights, tilts, rays that hit, miss '
@@ -737,6 +738,51 @@ def batch_cases(ctx):
             ctx.violation('intersect_w_triangle_batch / intersect_w_surface_batch shapes %s %s %s %s for %d triangles x %d rays'
                           % (tuple(nb.shape), tuple(cb.shape), tuple(sb.shape), tuple(sd.shape), m, n), rec,
                           {'api': 'torch', 'fn': 'intersect_w_triangle_batch', 'what': 'shape', 'multi': True})
+
+
+def storage_cases(ctx):
+    """the same triangle / ray stored in different ways (whole-number coordinates as Python ints, int32 / int64 arrays, float32, lists of floats):
+    the NumPy API must return the geometry of the triangle, whatever container and dtype carry it (tilted planes have normals with fractional
+    components even when every vertex is a whole number).  A storage type the function rejects is not judged."""
+    import odak.raytracing as NR
+    rng = ctx.rng
+    tris = [[[10, 0, 0], [0, 10, 0], [0, 0, 10]], [[0, 0, 5], [4, 0, 7], [1, 6, 3]], [[-3, 2, 1], [5, 1, -2], [0, -4, 6]], [[0, 0, 2], [5, 0, 2], [0, 5, 2]]]
+    for _ in range(ctx.n(2, 12)):
+        tris.append([[rng.randrange(-8, 9) for _ in range(3)] for _ in range(3)])
+    for tri_i in tris:
+        ref = np.array(tri_i, dtype=np.float64)
+        cr = np.cross(ref[0] - ref[1], ref[2] - ref[1])
+        if np.linalg.norm(cr) < 1e-9:
+            continue
+        nref = cr / np.linalg.norm(cr)
+        cen = ref.mean(axis=0)
+        o = cen + nref * 7.0 + np.array([0.3, -0.2, 0.1])
+        d = (cen + 0.1 * (ref[0] - cen)) - o
+        d = d / np.linalg.norm(d)
+        ray = np.array([o, d])
+        want_n, want_d = NR.intersect_w_surface(ray.copy(), ref.copy())
+        want_tn = NR.get_triangle_normal(ref.copy())
+        for tag, conv in (('python_ints', lambda t: [list(map(int, r)) for r in t]), ('int64', lambda t: np.array(t, dtype=np.int64)),
+                          ('int32', lambda t: np.array(t, dtype=np.int32)), ('float32', lambda t: np.array(t, dtype=np.float32)),
+                          ('float_lists', lambda t: [list(map(float, r)) for r in t])):
+            rec = {'class': 'storage', 'storage': tag, 'triangle': tri_i, 'ray': ray.tolist()}
+            ctx.case(('storage', tag, tuple(map(tuple, tri_i))), True)
+            ctx.count('triangle_storage/' + tag)
+            try:
+                got_tn = NR.get_triangle_normal(conv(tri_i))
+                got_n, got_d = NR.intersect_w_surface(ray.copy(), conv(tri_i))
+            except Exception:
+                ctx.count('triangle_storage/rejected/' + tag)
+                continue
+            tol_ = 1e-5 if tag == 'float32' else 1e-9
+            if not np.allclose(np.asarray(got_tn, dtype=np.float64), np.asarray(want_tn, dtype=np.float64), atol=tol_, equal_nan=False) or \
+                    not np.allclose(np.asarray(got_n, dtype=np.float64), np.asarray(want_n, dtype=np.float64), atol=tol_ * 10, equal_nan=False) or \
+                    not np.allclose(np.asarray(got_d, dtype=np.float64), np.asarray(want_d, dtype=np.float64), atol=tol_ * 10, equal_nan=False):
+                ctx.violation('numpy intersect_w_surface / get_triangle_normal: the triangle %s stored as %s gives normal %s and hit %s, the same triangle as '
+                              'float64 gives %s and %s' % (tri_i, tag, np.asarray(got_tn).reshape(-1, 3)[-1].tolist(), np.asarray(got_n).reshape(-1, 3)[0].tolist(),
+                                                           np.asarray(want_tn).reshape(-1, 3)[-1].tolist(), np.asarray(want_n).reshape(-1, 3)[0].tolist()),
+                              rec, {'api': 'numpy', 'fn': 'get_triangle_normal', 'what': 'storage', 'storage': tag})
+                break
 
 
 def exact_parallel_cases(ctx):
